@@ -257,6 +257,9 @@ def rule_r6(p, res):
     r.check(s == P("np.dot(%s, self.linear_component.T) + self.translation_component" % af.params[1]), af, af.node, "affine application = x L^T + t (found `%s`)" % s)
 
 
+# rules of sibling properties over code paths this property's statement also quantifies over (DESIGN.md section 3, shared rules)
+ALSO = ['C06.R2', 'C09.R3', 'C09.R4', 'C09.R7']
+
 RULES = [rule_r1, rule_r2, rule_r3, rule_r4, rule_r5, rule_r6]
 
 WITNESSES = [
